@@ -132,7 +132,7 @@ def _cinit_rules(col):
             t = ev.term
             f = t[1]
             is_cinit = S.match(f, S.fcall("getattr", ("elem", S.V("m", lambda x: x in mro)), ("const", repr("__cinit__")), S.ANY)) is not None \
-                or S.match(f, ("attr", ("elem", S.V("m", lambda x: x in mro)), "__cinit__")) is not None
+                or any(S.match(fa, ("attr", ("elem", S.V("m", lambda x: x in mro)), "__cinit__")) is not None for fa in S.alts(f))
             if is_cinit and t[2] == (S.SELF, ("uop", "*", va[0])) and dict(t[3]).get("**") == kw[0]:
                 loops = sx.sym.loops(ev.nid)
                 hdr = [g for g in sx.cfg.guards(ev.nid) if g.kind == "T" and isinstance(g.ast, (ast.For, ast.AsyncFor))]
